@@ -261,6 +261,9 @@ type TaskMaster struct {
 
 	// DeleteHooks for tasks
 	deleteHooks map[string][]deleteHook
+	// hooksMu guards deleteHooks. It is not mu, because a node registers its hook while it starts,
+	// which may be while StopTask/DeleteTask hold mu and wait for that very node to finish.
+	hooksMu sync.Mutex
 
 	diag Diagnostic
 
@@ -627,15 +630,17 @@ func (tm *TaskMaster) stopTask(id string) (err error) {
 // internal deleteTask function. The caller must have acquired
 // the lock in order to call this function
 func (tm *TaskMaster) deleteTask(id string) {
+	tm.hooksMu.Lock()
 	hooks := tm.deleteHooks[id]
+	tm.hooksMu.Unlock()
 	for _, deleteHook := range hooks {
 		deleteHook(tm)
 	}
 }
 
 func (tm *TaskMaster) registerDeleteHookForTask(id string, hook deleteHook) {
-	tm.mu.Lock()
-	defer tm.mu.Unlock()
+	tm.hooksMu.Lock()
+	defer tm.hooksMu.Unlock()
 	tm.deleteHooks[id] = append(tm.deleteHooks[id], hook)
 }
 
